@@ -1,13 +1,19 @@
 """C17 -- Caches never change an answer and stay within their configured bounds.
 
-Obligations: coq/Props/C17.v (model coq/Model/Cache.v).
-Tie K, three drivers (harness/impl/c17_impl.py), all on the real code:
+Obligations: coq/Props/C17.v (models coq/Model/Cache.v, coq/Model/CacheButler.v).
+Tie T: coq/Gen/CacheExpireGen.v -- the threshold tests of DatastoreCacheManager._expire_cache regenerated from the source
+       (harness/translators/cache_expire.py); Proofs/CacheProofsE.v proves the generated expiry = the hand model's.
+Tie K, four drivers (harness/impl/c17_impl.py), all on the real code:
   mgr      histories on two real DatastoreCacheManager objects sharing one cache directory (every expiry mode and
            threshold incl. 0, sizes around one file, ages beyond one day under a virtual clock, files deleted / written
            by "another process"); after EVERY step the directory listing (name, size, ctime), file_count, cache_size
            and the registry's entries of both managers are compared with the model (vm_compute).
   butler   put / get / remove histories on a real Butler with a non-local datastore root, two clients sharing one
            cache directory, run twice: file cache on vs off; results compared (oracle), bounds and bookkeeping checked.
+  butlerx  put / get / remove histories on a real Butler (non-local root) with FIXED dataset ids, single-file and
+           disassembled (multi-file) datasets, two clients with their own expiry configuration on one cache directory,
+           virtual clock; run twice (cache on / off); after every step result, cache directory and both managers'
+           bookkeeping compared with the model coq/Model/CacheButler.v (vm_compute) and with each other (oracle).
   registry query / write interleavings on a real SQLite registry run twice: inside caching_context() vs without;
            answers compared with each other (oracle) and with the model (vm_compute).
 Oracle: written from the property statement (cached answer == uncached answer; own writes visible; no content for a
@@ -339,6 +345,209 @@ def check_butler_history(ctx: Ctx, hist, res):
         if first is not None:
             break
     return first, stats
+
+
+# ================================================================================================
+# 2b. Butler histories WITH a model (coq/Model/CacheButler.v): fixed dataset ids, multi-file datasets, two configurations
+# ================================================================================================
+BX_THR = {"files": [0, 1, 2, 3], "datasets": [0, 1, 2], "size": [0, 40, 100], "age": [60, 100000], "none": [0], "disabled": [0]}
+BX_HDR = ("From Coq Require Import ZArith NArith List.\nFrom V Require Import Model.Cache Model.CacheButler Model.CacheButlerCheck.\n"
+          "Import ListNotations.\n")
+
+
+def gen_bx_history(rng, length, mutable=None):
+    """put / get / remove of datasets 0..5 with FIXED ids (a dataset removed and put again keeps its cache file names), one
+    to three files per dataset.  `mutable`: a dataset put again after a removal may get OTHER content (the cache's
+    assumption that one name always has one content is then broken on purpose -> known finding F-C17-reput-stale)."""
+    if mutable is None:
+        mutable = rng.random() < 0.2
+    mode = rng.choice(["files", "files", "datasets", "datasets", "size", "age", "none"])
+    thr = rng.choice(BX_THR[mode])
+    if rng.random() < 0.6:
+        cfg = [[mode, thr], [mode, thr]]
+    else:
+        m2 = rng.choice(list(BX_THR))
+        cfg = [[mode, thr], [m2, rng.choice(BX_THR[m2])]]
+    ops = []
+    stored = {}
+    ever = {}
+    removed = []
+
+    def tick(dt=1):
+        ops.append({"op": "tick", "dt": dt})
+
+    for _ in range(length):
+        x = rng.random()
+        who = rng.choice([0, 0, 1])
+        free = [d for d in range(6) if d not in stored]
+        if (x < 0.32 or not stored) and free:
+            d = rng.choice(free)
+            if d in ever and not mutable:
+                pads = ever[d]
+            else:
+                n = rng.choice([1, 1, 2, 3])
+                pads = [rng.choice([0, 10, 25, 40, 90]) for _ in range(n)]
+            ops.append({"who": who, "op": "put", "ds": d, "pads": pads})
+            stored[d] = pads
+            ever[d] = pads
+            if d in removed:
+                removed.remove(d)
+        elif x < 0.68 and stored:
+            ops.append({"who": who, "op": "get", "ds": rng.choice(sorted(stored))})
+        elif x < 0.80 and stored:
+            d = rng.choice(sorted(stored))
+            del stored[d]
+            removed.append(d)
+            ops.append({"who": who, "op": "remove", "ds": d})
+            tick()
+            ops.append({"who": rng.choice([0, 1]), "op": "get", "ds": d})      # never content for a removed dataset
+        elif x < 0.86 and removed:
+            ops.append({"who": who, "op": "get", "ds": rng.choice(removed)})
+        elif x < 0.90:
+            ops.append({"op": "cache_wipe"})
+        elif x < 0.94 and ever:
+            d = rng.choice(sorted(ever))
+            ops.append({"op": "ext_delete", "key": 4 * d + (0 if len(ever[d]) == 1 else rng.randrange(1, len(ever[d]) + 1))})
+        else:
+            tick(rng.choice(TICKS))
+            continue
+        tick()
+    return {"cfg": cfg, "ops": ops, "mutable": mutable}
+
+
+def check_bx_history(ctx: Ctx, hist, res):
+    stats = {"hits": 0, "removed_gets": 0, "evicted": 0, "multi": 0, "reput": 0}
+    first = None
+    stored = {}       # dataset -> the content ids (file sizes) last put, per file: [[key, size]]
+    names = {}        # cache file name (key) -> set of contents ever written under that name
+    prev_cache = []
+    prev_mgr = [{"entries": []}, {"entries": []}]
+
+    def fail(i, sig, what, **extra):
+        nonlocal first
+        n = len(ctx.oracle_failures)
+        ctx.oracle_fail(sig, dict({"kind": "butlerx", "cfg": hist["cfg"], "ops": hist["ops"][: i + 1], "failing_step": i,
+                                   "cached": res["cached"][i], "uncached": res["uncached"][i]}, **extra), what)
+        if len(ctx.oracle_failures) > n and first is None:
+            first = i
+
+    for i, (op, oc, ou) in enumerate(zip(hist["ops"], res["cached"], res["uncached"])):
+        ctx.count()
+        k = op["op"]
+        d = op.get("ds")
+        if oc.get("exempt"):
+            fail(i, "butlerx-exempt-leftover", "a temporary hard link was left behind in the exempt directory")
+        if any(c[0] < 0 for c in oc["cache"]):
+            fail(i, "butlerx-foreign-file-in-cache", "a file that is not a cache file appeared in the cache directory")
+        if k == "put" and oc["res"] == "ok" and ou["res"] == "ok":
+            if oc.get("files") != ou.get("files"):
+                fail(i, "butlerx-put-sizes-differ", "the same put wrote files of different sizes with and without the cache")
+            files = [[4 * d + c, sz + (1000 if op.get("fill", "p") != "p" else 0)] for c, sz in ou.get("files", [])]
+            stored[d] = files
+            for key, sz in files:
+                names.setdefault(key, set()).add(sz)
+            if len(files) > 1:
+                stats["multi"] += 1
+        rewritten = d is not None and any(len(v) > 1 for kk, v in names.items() if kk // 4 == d)
+        if rewritten and k == "put":
+            stats["reput"] += 1
+        if "who" in op and oc["res"] != ou["res"]:
+            cls = "reput-other-content" if rewritten else ("stored" if d in stored else "removed")
+            fail(i, f"butlerx-cached-differs:{k}:{cls}",
+                 f"{k} of dataset {d} answered {oc['res']} with the file cache and {ou['res']} without it ({cls})")
+        if k == "remove" and ou["res"] == "ok":
+            stored.pop(d, None)
+        if k == "get":
+            if d not in stored:
+                stats["removed_gets"] += 1
+                for side, o in (("with", oc), ("without", ou)):
+                    if isinstance(o["res"], list):
+                        fail(i, "butlerx-content-for-removed-dataset", f"get of a removed dataset returned content {side} the file cache")
+            else:
+                if ou["res"] != ["value", stored[d]]:
+                    fail(i, "butlerx-get-wrong-content", f"get without the file cache returned {ou['res']}, the last put wrote {stored[d]}")
+                if isinstance(oc["res"], list) and oc["remote_reads"] == 0:
+                    stats["hits"] += 1
+        if "who" in op:
+            w = op["who"]
+            mode, thr = hist["cfg"][w]
+            mo = oc["mgr"][w]
+            cache_keys = {c[0] for c in oc["cache"]}
+            stats["evicted"] += len({c[0] for c in prev_cache} - cache_keys)
+            if mo["file_count"] != len(mo["entries"]) or mo["cache_size"] != sum(e[1] for e in mo["entries"]):
+                fail(i, "butlerx-bookkeeping", "file_count / cache_size differ from the registry entries")
+            moved = (k == "put" and oc["res"] == "ok") or (k == "get" and oc["remote_reads"] > 0 and isinstance(oc["res"], list))
+            if moved and mode not in ("none", "disabled"):
+                if {e[0] for e in mo["entries"]} != cache_keys:
+                    fail(i, f"butlerx-entries-vs-disk:{mode}", "after move_to_cache the acting client's registry is not the cache directory",
+                         entries=sorted(e[0] for e in mo["entries"]), disk=sorted(cache_keys))
+                if mode == "files" and thr >= 0 and len(cache_keys) > thr + 1:
+                    fail(i, f"butlerx-bound-files:thr{thr}", f"files mode, threshold {thr}: {len(cache_keys)} files in the cache directory after {k}")
+                if mode == "datasets" and thr >= 0 and len({c // 4 for c in cache_keys}) > thr + 1:
+                    fail(i, f"butlerx-bound-datasets:thr{thr}", f"datasets mode, threshold {thr}: {len({c // 4 for c in cache_keys})} datasets cached after {k}")
+                if mode == "size" and thr >= 0 and not rewritten:
+                    big = max([sz for kk, v in names.items() if kk // 4 == d for sz in v] or [0])
+                    if mo["cache_size"] > thr + big:
+                        fail(i, "butlerx-bound-size", f"size mode, threshold {thr}: cache_size {mo['cache_size']} after caching files of at most {big} bytes")
+            if k == "remove" and oc["res"] == "ok":
+                known_before = {e[0] for e in prev_mgr[w]["entries"]}
+                bad = [e[0] for e in mo["entries"] if e[0] // 4 == d]
+                left = [c for c in cache_keys & known_before if c // 4 == d]
+                if bad or left:
+                    fail(i, "butlerx-remove-left-entry-or-file", f"pruneDatasets left cache entries {bad} / files {left} of the removed dataset "
+                                                                 "that the removing client knew")
+        prev_cache = oc["cache"]
+        prev_mgr = oc["mgr"]
+        if first is not None:
+            break
+    return first, stats
+
+
+def _cbres(r):
+    if r == "ok":
+        return "BOk"
+    if isinstance(r, list) and r[0] == "value":
+        if any(x[1] < 0 for x in r[1]):
+            return None
+        return "(BContent " + clist(f"({cn(x[0])}, {cz(x[1])})" for x in r[1]) + ")"
+    if r == "E:FileNotFoundError":
+        return "BNotFound"
+    if r == "E:FileIntegrityError":
+        return "BIntegrity"
+    return None
+
+
+def coq_bx_case(hist, res):
+    if not hist.get("modelled", True):
+        return "skip"
+    items = []
+    for op, oc, ou in zip(hist["ops"], res["cached"], res["uncached"]):
+        k = op["op"]
+        who = "true" if op.get("who") == 1 else "false"
+        if k == "put":
+            if oc.get("files") is None or oc.get("files") != ou.get("files") or op.get("fill", "p") != "p":
+                return None
+            o = f"BPut {who} {cn(op['ds'])} " + clist(f"({cn(c)}, {cz(sz)})" for c, sz in oc["files"])
+        elif k == "get":
+            o = f"BGet {who} {cn(op['ds'])}"
+        elif k == "remove":
+            o = f"BRemove {who} {cn(op['ds'])}"
+        elif k == "tick":
+            o = f"BTick {cz(op['dt'])}"
+        elif k == "ext_delete":
+            o = f"BExtDelete {cn(op['key'])}"
+        elif k == "cache_wipe":
+            o = "BWipe"
+        else:
+            return None
+        rc, ru = _cbres(oc["res"]), _cbres(ou["res"])
+        if rc is None or ru is None or any(c[0] < 0 for c in oc["cache"]):
+            return None
+        pl = lambda l: clist(f"({cn(a)}, {cz(b)})" for a, b in l)   # noqa: E731
+        mo = [f"(mkBmobs {cz(m['file_count'])} {cz(m['cache_size'])} {pl(m['entries'])})" for m in oc["mgr"]]
+        items.append(f"({o}, mkBobs {rc} {pl(oc['cache'])} {mo[0]} {mo[1]} {ru})")
+    cfgs = [f"(mkCfg {MODES[m]} {cz(t)})" for m, t in hist["cfg"]]
+    return f"({cfgs[0]}, {cfgs[1]}, {clist(items)})"
 
 
 # ================================================================================================
@@ -690,6 +899,7 @@ KINDS = {
     "mgr": ("run_mgr_histories", check_mgr_history, lambda r: r["steps"]),
     "butler": ("run_butler_histories", check_butler_history, lambda r: r),
     "registry": ("run_registry_histories", check_reg_history, lambda r: r),
+    "butlerx": ("run_butlerx_histories", check_bx_history, lambda r: r),
 }
 
 
@@ -736,6 +946,15 @@ def _process(ctx: Ctx, kind, results, cases, metas, shrink=True):
             ctx.hist("expiry-butler", f"{hist['mode']}={hist['thr']}")
             if stats["hits"] and stats["removed_gets"]:
                 ctx.nontrivial({"k": kind, "h": hist})
+        elif kind == "butlerx":
+            for m, t in hist["cfg"][:1]:
+                ctx.hist("expiry-butlerx", f"{m}={t}")
+            if stats["multi"]:
+                ctx.hist("butlerx-history", "multi-file-dataset")
+            if stats["reput"]:
+                ctx.hist("butlerx-history", "put-again-with-other-content")
+            if stats["hits"] and stats["removed_gets"] and stats["evicted"]:
+                ctx.nontrivial({"k": kind, "h": hist})
         else:
             if stats["stale_risk"] and stats["nonempty_after_write"]:
                 ctx.nontrivial({"k": kind, "h": hist})
@@ -755,6 +974,8 @@ def _process(ctx: Ctx, kind, results, cases, metas, shrink=True):
             cc = coq_mgr_case(hist, pick(r))
         elif kind == "registry":
             cc = coq_reg_case(hist, r) if hist.get("modelled", True) else "skip"
+        elif kind == "butlerx":
+            cc = coq_bx_case(hist, r)
         else:
             cc = "skip"
         if cc == "skip":
@@ -769,23 +990,25 @@ def _process(ctx: Ctx, kind, results, cases, metas, shrink=True):
 
 def _model_compare(ctx: Ctx, cases, metas, suffix=""):
     for kind, checker, fb in (("mgr", "chk_mgr_history", "let '(ca, cb, l) := {c} in mfirst_bad true ca cb empty_world 1%N l"),
-                              ("registry", "chk_reg_history", "rfirst_bad as_coded rinit rinit 1%N ({c})")):
-        if not cases[kind]:
+                              ("registry", "chk_reg_history", "rfirst_bad as_coded rinit rinit 1%N ({c})"),
+                              ("butlerx", "chk_butler_history", "let '(ca, cb, l) := {c} in bfirst_bad ca cb empty_b empty_b 1%N l")):
+        if not cases.get(kind):
             continue
-        bad = ctx.coq_cases(f"{kind}_history{suffix}", HDR, cases[kind], checker, shard=40 if kind == "mgr" else 60, timeout=600)
+        hdr = BX_HDR if kind == "butlerx" else HDR
+        bad = ctx.coq_cases(f"{kind}_history{suffix}", hdr, cases[kind], checker, shard=40 if kind == "mgr" else 60, timeout=600)
         for i in (bad or [])[:4]:
             if metas[kind][i]["oracle_failed"]:
                 continue   # the oracle already reported this history; the model describes the unbroken code
-            rc, out = ctx.coq_eval(f"{kind}_bad{i}{suffix}", HDR, fb.format(c=cases[kind][i]))
+            rc, out = ctx.coq_eval(f"{kind}_bad{i}{suffix}", hdr, fb.format(c=cases[kind][i]))
             where = out.strip().splitlines()[-2:] if rc == 0 else out[-300:]
             ctx.disagreement(f"{kind}_history", metas[kind][i], f"model and implementation differ; first_bad (10*step+component) = {where}")
 
 
 def _corpus(ctx: Ctx):
-    out = {"mgr": [], "butler": [], "registry": []}
+    out = {"mgr": [], "butler": [], "registry": [], "butlerx": []}
     for f in sorted((VERIF / "corpus" / "C17").glob("*.json")):
         rep = json.loads(f.read_text())
-        h = {k: v for k, v in rep.items() if k in ("cfg", "ops", "mode", "thr", "init_chains", "modelled")}
+        h = {k: v for k, v in rep.items() if k in ("cfg", "ops", "mode", "thr", "init_chains", "modelled", "mutable")}
         out[rep["kind"]].append(h)
     return out
 
@@ -806,18 +1029,20 @@ def run(ctx: Ctx):
         "cache (no remote read) AND a removed dataset was requested; a registry history only if a write happened inside a caching "
         "context after a cached read AND a later query in that context returned rows; distinct by the hash of the history"
     )
-    props_ok = ctx.build_props(extra_targets=["Model/CacheCheck.vo"])
+    from harness.translators import cache_expire
+    ctx.regen("cache_expire", cache_expire.translate)      # Gen/CacheExpireGen.v: the threshold tests of _expire_cache
+    props_ok = ctx.build_props(extra_targets=["Model/CacheCheck.vo", "Model/CacheButlerCheck.vo"])
     if not props_ok:
         from harness.common import coq_make
-        coq_make(["Model/CacheCheck.vo"])
+        coq_make(["Model/CacheCheck.vo", "Model/CacheButlerCheck.vo"])
 
-    cases = {"mgr": [], "butler": [], "registry": []}
-    metas = {"mgr": [], "butler": [], "registry": []}
+    cases = {"mgr": [], "butler": [], "registry": [], "butlerx": []}
+    metas = {"mgr": [], "butler": [], "registry": [], "butlerx": []}
 
     if ctx.replay:
         rep = json.loads(Path(ctx.replay).read_text())
         kind = rep.get("kind", "mgr")
-        h = {k: v for k, v in rep.items() if k in ("cfg", "ops", "mode", "thr", "init_chains", "modelled")}
+        h = {k: v for k, v in rep.items() if k in ("cfg", "ops", "mode", "thr", "init_chains", "modelled", "mutable")}
         _process(ctx, kind, _batch(KINDS[kind][0], [h], 1), cases, metas, shrink=False)
         _model_compare(ctx, cases, metas, "_replay")
         return
@@ -833,6 +1058,7 @@ def run(ctx: Ctx):
     n_mgr = int((160 if q else 1200) * scale)
     n_but = int((24 if q else 160) * scale)
     n_reg = int((40 if q else 260) * scale)
+    n_bx = int((30 if q else 200) * scale)
     r = ctx.rng
     mgr_h = []
     # every mode x threshold at least once with equal configuration on both managers, then random ones
@@ -847,6 +1073,10 @@ def run(ctx: Ctx):
     _process(ctx, "butler", _batch("run_butler_histories", but_h, 3, timeout=900), cases, metas)
     ctx.hist("source", "generated-butler", len(but_h))
 
+    bx_h = [gen_bx_history(r, 12 if q else 18) for _ in range(n_bx)]
+    _process(ctx, "butlerx", _batch("run_butlerx_histories", bx_h, 4, timeout=900), cases, metas)
+    ctx.hist("source", "generated-butlerx", len(bx_h))
+
     reg_h = [gen_reg_history(r, 14 if q else 22, modelled=(j % 3 != 2)) for j in range(n_reg)]
     _process(ctx, "registry", _batch("run_registry_histories", reg_h, 4, timeout=900), cases, metas)
     ctx.hist("source", "generated-registry", len(reg_h))
@@ -860,14 +1090,16 @@ def run(ctx: Ctx):
 
     # ---- something no longer checks but the oracle held: search deeper on the implementation
     if ctx.broken and not ctx.oracle_failures:
-        c2 = {"mgr": [], "butler": [], "registry": []}
-        m2 = {"mgr": [], "butler": [], "registry": []}
+        c2 = {"mgr": [], "butler": [], "registry": [], "butlerx": []}
+        m2 = {"mgr": [], "butler": [], "registry": [], "butlerx": []}
         extra_m = [gen_mgr_history(r, 26) for _ in range(300 if q else 900)]
         _process(ctx, "mgr", _batch("run_mgr_histories", extra_m, 10), c2, m2)
         extra_r = [gen_reg_history(r, 26, modelled=False) for _ in range(40 if q else 120)]
         _process(ctx, "registry", _batch("run_registry_histories", extra_r, 4, timeout=900), c2, m2)
         extra_b = [gen_butler_history(r, 20) for _ in range(20 if q else 60)]
         _process(ctx, "butler", _batch("run_butler_histories", extra_b, 3, timeout=900), c2, m2)
+        extra_x = [gen_bx_history(r, 22) for _ in range(40 if q else 120)]
+        _process(ctx, "butlerx", _batch("run_butlerx_histories", extra_x, 4, timeout=900), c2, m2)
         ctx.cov["search"] = (f"{len(extra_m)} manager, {len(extra_r)} registry and {len(extra_b)} Butler histories of 20-26 steps run on the "
                              "implementation with the property oracle after every step: "
                              + ("a failing input was found" if ctx.oracle_failures else "the oracle held on all of them"))
